@@ -153,6 +153,65 @@ def small_scope_texts(rng, exhaustive_len, sample_n, sample_len):
     return out
 
 
+SWEEP = [7, 8, 9, 10, 11, 15, 16, 17, 31, 32, 33, 63, 64, 65, 127, 128, 129, 255, 256, 257, 300, 1000, 1001, 1023, 1024, 1025]
+SWEEP_QUICK = [8, 9, 10, 16, 17, 32, 33, 64, 65, 128, 255, 256, 257, 1000, 1001, 1025]
+# letters whose lower- or upper-case form has another UTF-8 length, ligatures, titlecase, signs that fold to ASCII
+ODD_LETTERS = ['İ', 'Ⱥ', 'Ⱦ', 'ẞ', 'ß', '\u212a', '\u212b', '\u2126', 'ǅ', 'ﬁ', 'ſ', 'ı', 'é', 'Ω', '𝔘', 'ŉ']
+
+
+def sized_tokens(quick):
+    """tokens of every class whose BYTE length sweeps 1..80 and the SWEEP sizes, with a multi-byte letter ending exactly at,
+    straddling, or starting at that byte; words built around each letter of ODD_LETTERS at every byte length 1..14"""
+    out = []
+    lengths = list(range(1, 41 if quick else 81)) + [n for n in (SWEEP_QUICK if quick else SWEEP) if n > 40]
+    for n in lengths:
+        for k in (0, 1, 2):
+            body = 'a' * max(0, n - 1 - k) + 'é' + 'a' * k          # the two bytes of é end at byte n-k+1
+            out += [body, '"' + body, '"' + body + '"', '(' + body, '(' + body + ')', body + '1', '_' + body, '5' + body,
+                    body + "'s", body.capitalize() + ' ' + body.capitalize()]
+        out += ['9' * n, '0.' + '3' * n, 'x' * n, '"' + 'x' * n + '"']
+    for L in ODD_LETTERS:
+        for n in range(0, 14):
+            for m in (0, 1, 2):
+                w = 'a' * n + L + 'b' * m
+                out += [w, w + "'s", w + "'re", w.upper(), w + ' ' + w]
+    return out
+
+
+def scale_programs(quick):
+    """programs in which ONE thing is repeated N times, N sweeping powers of two +-1 and 1000: paragraphs, statements, blank
+    lines, arguments, list elements, operands, subscripts, `up`s, nested blocks (up to 257), poetic words and word lengths"""
+    out = []
+    for n in (SWEEP_QUICK if quick else SWEEP):
+        out.append(('paragraphs', n, ''.join('say %d\n\n' % i for i in range(n))))
+        out.append(('paragraphs-if', n, ''.join('if x\nsay %d\n\n' % i for i in range(n))))
+        out.append(('leading-blank-lines', n, '\n' * n + 'say 1\n'))
+        out.append(('statements', n, ''.join('say %d\n' % i for i in range(n))))
+        out.append(('arguments', n, 'say f taking ' + ', '.join(str(i) for i in range(n)) + '\n'))
+        out.append(('list-elements', n, 'rock x with ' + ', '.join(str(i) for i in range(n)) + '\n'))
+        out.append(('operands', n, 'say 1' + ' plus 1' * n + '\n'))
+        out.append(('ups', n, 'build x' + ' up' * n + '\n'))
+        out.append(('poetic-words', n, 'x is' + ' ab' * n + '\nsay x\n'))
+        out.append(('poetic-word-length', n, 'x is ' + 'a' * n + ' bc\nsay x\n'))
+        out.append(('poetic-word-length-hyphen', n, 'x is ab-' + 'a' * n + ' c\nsay x\n'))
+        out.append(('params', n, 'f takes ' + ', '.join('p' + alpha_(i) for i in range(n)) + '\nsay 1\n\n'))
+        if n <= 257:
+            out.append(('subscripts', n, 'say x' + ' at 0' * n + '\n'))
+            out.append(('subscript-target', n, 'put 1 into x' + ' at 0' * n + '\nsay x' + ' at 0' * n + '\n'))
+            out.append(('nested-while', n, ''.join('while x\n' for _ in range(n)) + 'say 1\n' + '\n' * n))
+            out.append(('nots', n, 'say ' + 'not ' * n + 'x\n'))
+    return out
+
+
+def alpha_(n):
+    out = ''
+    while True:
+        out = 'abcdefghijklmnopqrstuvwxyz'[n % 26] + out
+        n //= 26
+        if n == 0:
+            return out
+
+
 def token_prefixes(rng, text, limit=80):
     """every prefix of a program that ends at a token boundary, without a final newline and with a trailing
     blank / comment / ignorable punctuation (truncation at every point where the parser may run out of tokens)"""
